@@ -102,3 +102,42 @@ class Session:
     def add(self, cmd, kind="any", expect=None, meta=None):
         self.cmds.append(cmd); self.checks.append((kind, expect, meta))
         return len(self.cmds) - 1
+
+
+def load_sections_only(path, version):
+    """The library's own parse (FileHeader + inflated sections) WITHOUT building the managers: randomly generated field
+    values need not be meaningful to the managers. Returns the scenario object (sections filled)."""
+    from AoE2ScenarioParser.scenarios.aoe2_de_scenario import AoE2DEScenario
+    from AoE2ScenarioParser.scenarios.aoe2_scenario import _initialise_version_dependencies
+    from AoE2ScenarioParser.helper.incremental_generator import IncrementalGenerator
+    ig = IncrementalGenerator.from_file(path)
+    scn = AoE2DEScenario("DE", version, source_location=path, name=os.path.basename(path), variant=None)
+    scn._load_structure()
+    _initialise_version_dependencies("DE", version)
+    scn._load_header_section(ig)
+    scn._load_content_sections(ig)
+    return scn
+
+
+def merge_results(R, per_version, what):
+    """fold per-version worker results (dicts produced by Result.to_json()) into the parent Result"""
+    for v, res in sorted(per_version.items()):
+        if "worker_error" in res:
+            raise RuntimeError(f"{what}: worker for version {v} failed: {res['worker_error']}")
+        cov = res["coverage"]
+        R.evaluations += cov["evaluations"]
+        for k in cov.get("nontrivial_keys", []):
+            R.nontrivial.add(f"{v}:{k}")
+        R.traces += cov.get("traces_validated_against_impl", 0)
+        for k, n in cov.get("distribution", {}).items():
+            R.dist[k] += n
+        for s in cov.get("samples", [])[:1]:
+            if len(R.samples) < 8:
+                R.samples.append({"version": v, **s} if isinstance(s, dict) else {"version": v, "case": s})
+        for x in res.get("violations", []):
+            x["signature"] = {"version": v, **x.get("signature", {})}
+            R.violations.append(x)
+        for x in res.get("mismatches", []):
+            x["version"] = v
+            R.mismatches.append(x)
+        R.generated_obligations += res.get("generated_obligations", 0)
